@@ -36,7 +36,7 @@ CHECKS = {
    text="Lean theorems over the handler model the driver executes (read frame -> command -> map operation -> one reply): every well-formed SET/GET/DEL request frame is parsed back to its command; for any "
         "request sequence the handler writes exactly the concatenation of the map model's replies, in order, one per request, and leaves the store as the map does; GET returns the stored bytes verbatim; "
         "DEL counts each key as it is deleted in turn. Tied to the real server over loopback TCP: request scripts x segmentations (down to one byte) x pipelining depths, values with CR/LF/NUL and up to "
-        "200 KB, compared byte for byte with a python map and the Lean model. At byte level (Props/C06Bytes.lean): for EVERY segmentation of the bytes of any well-formed request sequence the reply bytes and the final store are those of the map model (segmentation and pipelining are irrelevant); a stream that ends inside a request yields exactly the replies of the complete requests before it and a reset, never a reply to the partial one.",
+        "200 KB, compared byte for byte with a python map and the Lean model. At byte level (Props/C06Bytes.lean): for EVERY segmentation of the bytes of any well-formed request sequence the reply bytes and the final store are those of the map model (segmentation and pipelining are irrelevant); a stream that ends inside a request yields exactly the replies of the complete requests before it and a reset, never a reply to the partial one. Client library (Props/C06Client.lean, Resp/Client.lean): what Client::{get,set,del} return for the map model's reply is the map's answer; error frames, end of stream and replies of the wrong kind are rejected, never taken for a value; tied by running the real Client against a scripted server (request bytes and results vs the driver).",
    note=COMMON_NOTE + "PARTIAL: the theorem is at the level of the frames a connection delivers; that those frames are independent of segmentation is C08 (c08 theorems), that the real store is the map is C01. "
         "Trusted: kernel TCP delivers bytes in order; tokio scheduling of handler and blocking pool.",
    technique="Lean 4 proof (handler model refines the map model, induction over requests) + differential correspondence with the real server over TCP",
